@@ -108,6 +108,12 @@ func (t *tagger) tag() int { t.next++; return t.next }
 func entry(r *rng.R, t *tagger, sec string, code int) g.EntrySpec {
 	es := g.EntrySpec{Code: code, Amount: amountFor(r, code), Tag: t.tag()}
 	switch sec {
+	case ach.ARC, ach.BOC, ach.POP:
+		if es.Amount > 2500000 { // these SEC codes cap the amount at $25,000
+			es.Amount = 2500000
+		}
+	}
+	switch sec {
 	case ach.CTX:
 		es.Addenda = r.Intn(3)
 	case ach.PPD, ach.CCD, ach.WEB, ach.CIE:
@@ -405,15 +411,18 @@ func corr(args []string) {
 	cases := hx.Create(filepath.Join(*out, "cases.txt"))
 	impl := hx.Create(filepath.Join(*out, "impl.txt"))
 	specs := hx.Create(filepath.Join(*out, "specs.jsonl"))
+	skips := hx.Create(filepath.Join(*out, "skipped.jsonl"))
+	defer skips.Close()
 	count, skipped := 0, 0
 	emit := func(c Case) {
+		j, _ := json.Marshal(c)
 		f, err := g.Build(c.File)
 		if err != nil || f.Validate() != nil {
 			skipped++
+			skips.Printf("%s\n", j)
 			return
 		}
 		cases.Printf("%s\n", dumpFile(f))
-		j, _ := json.Marshal(c)
 		specs.Printf("%s\n", j)
 		cf, df, err, panicked := segment(f)
 		switch {
